@@ -445,6 +445,9 @@ func c10Exec(c *core.Ctx, m *bind.Msg, entry string, data []byte, n int64) {
 			c.Inc("encode_failures_left_to_C03")
 			return
 		}
+		if len(pre) == 0 {
+			c10Retention(c, m, entry, data, out)
+		}
 		if !eq(r, r2) {
 			c.FailCase("encode|"+ent+"|mutates-message", fmt.Sprintf("%s via %s: encoding changes the message", r.name, ent), "bytes", describeCase(m, entry, data))
 			return
@@ -464,6 +467,53 @@ func c10Exec(c *core.Ctx, m *bind.Msg, entry string, data []byte, n int64) {
 		if entry == "plain" {
 			break
 		}
+	}
+}
+
+// C10 retention: an encoding must stay valid while other messages are encoded afterwards (a result that aliases
+// pooled or package-level storage would be overwritten).
+type codecPair struct {
+	First  codecBytes `json:"first"`
+	Second codecBytes `json:"second"`
+}
+
+var c10Prev struct {
+	out   []byte
+	saved []byte
+	desc  codecBytes
+	have  bool
+}
+
+func c10Retention(c *core.Ctx, m *bind.Msg, entry string, data []byte, out []byte) {
+	if c10Prev.have && !bytes.Equal(c10Prev.out, c10Prev.saved) {
+		c.FailCase("encode|result-overwritten-by-later-encode", fmt.Sprintf("the bytes returned by encoding %s (%x…) changed when %s was encoded afterwards", c10Prev.desc.Msg, clip(c10Prev.saved), m.Name), "bytes-pair", codecPair{First: c10Prev.desc, Second: describeCase(m, entry, data)})
+	}
+	c10Prev.out, c10Prev.saved, c10Prev.desc, c10Prev.have = out, append([]byte{}, out...), describeCase(m, entry, data), true
+}
+
+func c10PairExec(c *core.Ctx, in codecPair) {
+	spec := loadSpec()
+	var outs [][]byte
+	var saved [][]byte
+	for _, cb := range []codecBytes{in.First, in.Second} {
+		m := spec.Msg(cb.Msg)
+		if m == nil {
+			return
+		}
+		data, _ := hex.DecodeString(cb.Hex)
+		r := implDecode(m, cb.Entry, append([]byte{}, data...))
+		if r.pi != nil || r.err != nil {
+			return
+		}
+		out, err, pi := implEncode(m, cb.Entry, r, nil)
+		if pi != nil || err != nil {
+			return
+		}
+		outs = append(outs, out)
+		saved = append(saved, append([]byte{}, out...))
+	}
+	if len(outs) == 2 && !bytes.Equal(outs[0], saved[0]) {
+		c.Fail("encode|result-overwritten-by-later-encode", fmt.Sprintf("the bytes returned by encoding %s (%x…) changed when %s was encoded afterwards", in.First.Msg, clip(saved[0]), in.Second.Msg))
 	}
 }
 
@@ -545,6 +595,9 @@ func codecFinish(m *core.Merged, cov map[string]any) {
 func init() {
 	for _, p := range []string{"C01", "C03", "C04", "C10"} {
 		core.RegisterKind(p, "bytes", codecReplay(p))
+		if p == "C10" {
+			core.RegisterKind(p, "bytes-pair", c10PairExec)
+		}
 	}
 	core.RegisterProp(&core.PropSpec{
 		ID: "C01", Level: "model_checking", Run: codecRun("C01"),
@@ -577,7 +630,7 @@ func init() {
 	core.RegisterProp(&core.PropSpec{
 		ID: "C10", Level: "model_checking", Run: codecRun("C10"),
 		Shards: func(string) int { return 16 },
-		Rule:   codecRule("Oracle on every execution (accepted and rejected): input bytes and the capacity behind them unchanged; no byte slice reachable from the decoded message overlaps the input's backing array (address-range test) and, on every 16th case, flipping the input leaves the message unchanged; two decodes agree; on accepted messages encoding leaves the message DeepEqual to an untouched twin, preserves pre-existing buffer contents {0,1,300 octets}, appends exactly the bytes produced into an empty buffer, and is repeatable."),
+		Rule:   codecRule("Oracle on every execution (accepted and rejected): input bytes and the capacity behind them unchanged; no byte slice reachable from the decoded message overlaps the input's backing array (address-range test) and, on every 16th case, flipping the input leaves the message unchanged; two decodes agree; on accepted messages encoding leaves the message DeepEqual to an untouched twin, preserves pre-existing buffer contents {0,1,300 octets}, appends exactly the bytes produced into an empty buffer, is repeatable, and every encoding stays unchanged while the next accepted message is encoded (retention)."),
 		Assumptions: []string{"aliasing is decided by address ranges of all []uint8 fields reachable by reflection"},
 		Finish:      codecFinish,
 	})
